@@ -97,6 +97,27 @@ static inline C01Stats exec_c01(const Case &c) {
         for (auto &op : c.ops) {
             if (op.kind == 10 /*K_TICK*/) { br_darwin_idle_tick(&d); continue; }
             if (op.kind == 11 /*K_ADVANCE*/) { vp_set_now_ms(vp_now_ms() + (uint64_t)std::max<int64_t>(0, std::min<int64_t>(op.arg(0), 120000))); continue; }
+            if (op.kind == 12 /*burst: a = count, first id, then-query*/) {
+                // many pairwise-distinct Probe/Train frames addressed to this station (both flows), optionally followed by a Query from station 0
+                int64_t cnt = std::max<int64_t>(0, std::min<int64_t>(op.arg(0), 600));
+                Mac m0 = mac_from_u64(0x0200AA000001ULL);
+                for (int64_t k = 0; k <= cnt; k++) {
+                    bool query = k == cnt;
+                    if (query && !op.arg(2)) break;
+                    for (int flow = 0; flow < 2; flow++) {
+                        Mac me = flow == 0 ? own : mac_from_u64(mac_to_u64(own) ^ 0x10);
+                        Bytes f = query ? mk_simple(me, m0, 0, OP_QUERY, me, m0, 7)
+                                        : mk_simple(me, mac_from_u64(0x0600CC000000ULL + (uint64_t)(op.arg(1) + k)), 0, (k & 1) ? OP_PROBE : OP_TRAIN, me, mac_from_u64(0x0600DD000000ULL + (uint64_t)((op.arg(1) + k) % 7)), 0);
+                        uint8_t *tf;
+                        if (flow == 0) br_darwin_rx(&d, w.stage(i0, f, DAEMON, &tf), f.size());
+                        else br_linux_rx(lm, ls, w.stage(i1, f, DAEMON, &tf), w.ctx(i1));
+                    }
+                    s.frames++;
+                }
+                s.deep++;
+                if (vp_ledger_violations()) { s.fail = vp_ledger_last_violation(); break; }
+                continue;
+            }
             if (op.kind != 9 /*K_RAW*/) continue;
             Bytes f = op.blob;
             if (f.size() > mtu) f.resize(mtu);
